@@ -9,8 +9,8 @@
 
    Hypotheses that are boolean predicates are evaluated by the harness on every record
    (Corr/C06.v): text_ok = no ESC and no LF in the texts the encoder copies verbatim (timestamp,
-   logger name, caller file/function, level tag, attribute keys, and the float/complex/time/%v
-   fallback texts, which colour mode prints UNQUOTED); colors_ok = the colour numbers of the
+   logger name, caller file/function, level tag, attribute keys, and the float/complex/time
+   texts of the standard library, which colour mode prints unquoted); colors_ok = the colour numbers of the
    level registry are >= 0 (background: or -1 = none).  The tag width is 1..5 as in the property:
    outside that range Level.ShortTag panics (the setter accepts 0), which the encoder model does
    not represent (tag_of is then empty), so the theorems are stated for 1..5 only.
@@ -111,12 +111,16 @@ Proof.
 Qed.
 Print Assumptions C06_rest_lines.
 
-(* ATTRIBUTE VALUES.  Colour mode writes verbatim exactly: keys, and the texts of VFloat, VComplex,
-   VTime, VFallback, VFloats, VTimes (raw_texts).  Everything else - strings, errors, durations,
-   byte slices and their slices (quoted by quote_go), numbers, booleans, <nil> - contributes no
-   byte below 0x20 and no 0x7f whatever it contains; and the only escape bytes of a value are
-   complete colour sequences of the encoder (first two conjuncts). *)
-Theorem C06_values_clean_partial : forall isprint, isprint_std isprint ->
+(* ATTRIBUTE VALUES.  Colour mode writes verbatim exactly: keys, and the number / time texts the
+   standard library produces for VFloat, VComplex, VTime, VFloats, VTimes (raw_texts: text of
+   strconv.AppendFloat / FormatComplex and Time.AppendFormat(RFC3339Nano), carried pre-rendered in
+   the model; the harness evaluates value_ok on every token it produces).  That these texts and
+   the keys hold no control byte is the ONLY hypothesis.  Everything logg itself decides is
+   proved: strings, errors, durations, byte slices, the %v fallback text of struct/map/... values
+   (quoted since /repo 0c009c6) and their slices are quoted by quote_go, numbers, booleans and
+   <nil> are computed - whatever they contain, a value contributes no byte below 0x20 and no 0x7f,
+   and its only escape bytes are complete colour sequences of the encoder (first two conjuncts). *)
+Theorem C06_values_clean : forall isprint, isprint_std isprint ->
   forall clr bg v pfx, -1 <= clr -> -1 <= bg ->
   Forall clean pfx -> Forall (Forall clean) (raw_texts v) ->
   let x := ser_value isprint ShColor clr bg pfx v in
@@ -127,26 +131,19 @@ Proof.
   intros isprint Hi clr bg v pfx Hc Hb Hp Hr x.
   destruct (values_clean isprint Hi clr bg v pfx Hc Hb Hp Hr) as [[B1 B2] C]. repeat split; assumption.
 Qed.
-Print Assumptions C06_values_clean_partial.
+Print Assumptions C06_values_clean.
 
-(* ... in particular, unconditionally, for the string-like kinds *)
+(* ... in particular, unconditionally, for the string-like kinds and the %v fallback *)
 Theorem C06_values_clean_quoted : forall isprint, isprint_std isprint ->
   forall clr bg s l, -1 <= clr -> -1 <= bg ->
   Forall clean (strip_sgr (ser_value isprint ShColor clr bg [] (VStr s)))
   /\ Forall clean (strip_sgr (ser_value isprint ShColor clr bg [] (VErr s)))
   /\ Forall clean (strip_sgr (ser_value isprint ShColor clr bg [] (VBytes s)))
   /\ Forall clean (strip_sgr (ser_value isprint ShColor clr bg [] (VDur s)))
-  /\ Forall clean (strip_sgr (ser_value isprint ShColor clr bg [] (VStrs l))).
+  /\ Forall clean (strip_sgr (ser_value isprint ShColor clr bg [] (VStrs l)))
+  /\ Forall clean (strip_sgr (ser_value isprint ShColor clr bg [] (VFallback s))).
 Proof. exact values_clean_quoted. Qed.
 Print Assumptions C06_values_clean_quoted.
-
-(* REFUTED for the code as it is: the %v fallback text of a struct, map, ... is written raw in
-   colour mode, so a string field holding an escape sequence reaches the terminal
-   (finding C06/values/kinds=struct, =map; proposed_fix_C06_fallback.diff quotes it) *)
-Theorem C06_values_clean_refuted : forall isprint clr bg,
-  exists t, ~ Forall clean (strip_sgr (ser_value isprint ShColor clr bg [] (VFallback t))).
-Proof. exact fallback_raw. Qed.
-Print Assumptions C06_values_clean_refuted.
 
 (* the registry of the source tables, with or without further registrations whose colours are
    colour numbers, meets the hypotheses on the registry *)
@@ -171,6 +168,11 @@ Definition ex_msg : bytes := [x68;x69;x0a;x74;x77;x6f;x0a].                     
 Definition ex_attrs : list attr :=
   [A [x7a] (VStr [x1b;x5b;x33;x31;x6d]); A [x65] (VErr [x62;x61;x64]);
    A [x67] (VGroup [A [x6e] (VInt 1)])].
+(* the %v fallback text of a struct whose string field holds ESC[2J: quoted, no raw escape *)
+Example C06_example_fallback :
+  ser_value ex_isprint ShColor 36 (-1) [] (VFallback [x7b;x7b;x1b;x5b;x32;x4a;x7d;x7d])
+  = [x22;x7b;x7b;x5c;x78;x31;x62;x5b;x32;x4a;x7d;x7d;x22].          (* "{{\x1b[2J}}" *)
+Proof. vm_compute. reflexivity. Qed.
 Example C06_example :
   isprint_std ex_isprint
   /\ attrs_ok ex_attrs = true /\ layout_domain ex_msg = true /\ text_ok (tag_of enc_registry 3 2) = true
